@@ -113,3 +113,30 @@ Example C13_ex :
     = Some [("a"%string, Con [("b"%string, Con [("x"%string, Leaf (SInt 1%Z)); ("y"%string, Leaf (SInt 2%Z))])])]
   /\ export_rule FYaml (Some (Lst [])) = WDoc (Con []) /\ possibly_template "a {{ b" = false.
 Proof. vm_compute. repeat split; reflexivity. Qed.
+
+(* ---------- templateFile (the template operation's sibling that reads its text from a file and writes the rendering to a
+   file): it only READS the data — the result type carries no document —, renders against the whole document or the
+   mapping at its path, and fails exactly when a file name is missing, the template cannot be read, or the path leads
+   to no mapping.  [t : option tmpl] is what the file system gives for the template file. *)
+Theorem C13_template_file_root : forall t file output data,
+  file <> ""%string -> output <> ""%string ->
+  template_file_op (Some t) file output None data = TFWritten (render t data).
+Proof. exact template_file_root. Qed.
+Print Assumptions C13_template_file_root.
+Theorem C13_template_file_at_path : forall t file output p data kvs,
+  file <> ""%string -> output <> ""%string -> lookup p (Con data) = Some (Con kvs) ->
+  template_file_op (Some t) file output (Some p) data = TFWritten (render t kvs).
+Proof. exact template_file_at_path. Qed.
+Print Assumptions C13_template_file_at_path.
+Theorem C13_template_file_fails_iff : forall t file output path data,
+  template_file_op t file output path data = TFErr <->
+  file = ""%string \/ output = ""%string \/ t = None \/ template_file_scope path data = None.
+Proof. exact template_file_fails_iff. Qed.
+Print Assumptions C13_template_file_fails_iff.
+
+Example C13_template_file_ex :
+  let data := [("name"%string, Leaf (SStr "n")); ("sub"%string, Con [("name"%string, Leaf (SStr "inner"))])] in
+  template_file_op (Some [PLit "x="; PVar "name"]) "t.tpl" "out.txt" (Some "sub"%string) data = TFWritten "x=inner" /\
+  template_file_op (Some [PLit "x="; PVar "name"]) "t.tpl" "out.txt" (Some "name"%string) data = TFErr /\
+  template_file_op None "t.tpl" "out.txt" None data = TFErr.
+Proof. vm_compute. repeat split; reflexivity. Qed.
